@@ -519,7 +519,7 @@ def classify(prog, f, roles, atom, pol, final):
     return (None, 'ok', '')
 
 
-def r13_1(prog, rep, f, rid='R13.1'):
+def r13_1(prog, rep, f, rid='R13.1', out=None):
     final, failed = _consts(prog)
     rep.saw(f)
     g = cfg_of(f)
@@ -649,6 +649,8 @@ def r13_1(prog, rep, f, rid='R13.1'):
                       roles.d.expr_depends(tloop.ast.iter)
                       if x.startswith('self.') and x.count('.') == 1
                       and '[' not in x}
+        if out is not None:
+            out.setdefault('task_attrs', set()).update(task_attrs)
         r13_3(prog, rep, f, 'R13.3' if rid == 'R13.1' else rid, ctext, call,
               [(a, p, m) for a, p, _, m in found['member']], task_attrs)
         # the explanation names the pilot
